@@ -89,11 +89,13 @@ def shards(tier, seed):
                 else:
                     depth = 3 if (ri == 1 and af and wk in DEEP) else 2
                 for part in range(NPART if depth >= 2 else 1):
-                    out.append(dict(world=wk, root=ri, autoflush=af, depth=depth, both=(tier != "quick"), part=part, nparts=NPART if depth >= 2 else 1))
+                    # one more operation after a mid-transaction flush: everywhere in thorough, for one world in quick
+                    ext = tier != "quick" or wk == ("U1", c30.SU)
+                    out.append(dict(world=wk, root=ri, autoflush=af, depth=depth, both=(tier != "quick"), part=part, nparts=NPART if depth >= 2 else 1, ext=ext))
     return out
 
 
-def enumerate_histories(w, root, depth, af):
+def enumerate_histories(w, root, depth, af, ext=True):
     """model-guided BFS: (history, index where the current transaction starts) for every state with pending work"""
     names = [n for n, _, _ in w.universe]
     m0 = ow.model_after(w, root)
@@ -107,7 +109,7 @@ def enumerate_histories(w, root, depth, af):
         for h, ms in frontier:
             if any(o.life == "P" or o.marked for o in ms.objs.values()) or ms.dirty:
                 yield h, ms
-            if d > depth or (d == depth and not (h and h[-1][0] == "flush")):
+            if d > depth or (d == depth and not (ext and h and h[-1][0] == "flush")):
                 continue
             # (one more operation after a flush on the last level: transactions with an earlier, successful flush)
             for op in ow.ref.enabled_ops(ms, names, kinds=TXN_KINDS if d < depth else tuple(k for k in TXN_KINDS if k != "flush"), pk_values=pkv, af=af):
@@ -370,7 +372,8 @@ def run_fault(w, af, h, F, f, ref):
 def run_shard(shard, tier, rec):
     w = ow.world(shard["world"])
     root = tuple(c30.ROOTS[shard["world"][0]][shard["root"]])
-    for i, (h, ms) in enumerate(enumerate_histories(w, root, shard["depth"], shard["autoflush"])):
+    ext = shard.get("ext", True)
+    for i, (h, ms) in enumerate(enumerate_histories(w, root, shard["depth"], shard["autoflush"], ext)):
         if i % shard.get("nparts", 1) != shard.get("part", 0):
             continue
         exp = ms.expect_flush(af=shard["autoflush"])
